@@ -10,6 +10,7 @@ CONSTANTS MaxW,        \* maximal weight of the generated body
           OutFile,     \* ndjson file to write
           Family,      \* which constructor/leaf family to enumerate
           WithNoSimp,  \* also predict the pull sequence of the unsimplified tree (C15)
+          WithTwin,    \* also run every body on two identical stacks (the periodicity law of C01)
           Light        \* programs only: no meaning, no engine prediction (for checks that need texts)
 
 -----------------------------------------------------------------------------
@@ -30,11 +31,11 @@ Vectors(p) ==
         ens == IF WithNoSimp THEN EngineRunNoSimp(sp) ELSE none
         eno == IF WithNoSimp THEN EngineRunNoSimp(op) ELSE none
         tp == Cat(TwinSrc(d), Cat(Prefix(Family), p))
-        rt == Run(tp)
-        et == EngineRun(tp)
+        rt == IF WithTwin THEN Run(tp) ELSE [hard |-> TRUE]
+        et == IF WithTwin THEN EngineRun(tp) ELSE [out |-> <<>>, m |-> [bad |-> TRUE, hard |-> TRUE]]
     IN (\* two identical inputs: "no construct re-orders work because of stacks it saw earlier" -- where the
         \* outermost construct takes its inputs one at a time, the second half repeats the first
-        IF rt.hard \/ d > 3 THEN <<>>
+        IF ~WithTwin \/ rt.hard \/ d > 3 THEN <<>>
         ELSE <<[ast |-> tp, den |-> rt.out, lo |-> rt.lo, hi |-> rt.hi, ordered |-> FALSE, kind |-> "twin", posfixed |-> PosFixed(p),
                 periodic |-> OneAtATime(p), eng |-> NormOut(et.out), engok |-> ~(et.m.bad \/ et.m.hard)]>>)
        \o
@@ -63,7 +64,9 @@ GenVectors ==
     LET all == AllPS(Family, MaxW)
         mine == MyShare(all)
         good == SelectSeq(mine, LAMBDA r: BodyOKF(Family, r.p))
-        illf == SelectSeq(mine, LAMBDA r: IllFormed(r.p))
+        \* family shadow: a read of `length' that no binder covers is the builtin word, not an error -- only
+        \* the programs in which every read is covered are generated
+        illf == IF Family = "shadow" THEN <<>> ELSE SelectSeq(mine, LAMBDA r: IllFormed(r.p))
         vecs == FlatMap(LAMBDA r: IF Light THEN LightVectors(r.p) ELSE Vectors(r.p), good)
                \o [j \in 1..Len(illf) |-> [ast |-> IF Prefix(Family) = Emp THEN illf[j].p ELSE Cat(Prefix(Family), illf[j].p),
                                              kind |-> "illformed"]]
